@@ -2,7 +2,8 @@
 Under /venv/bin/python with PYTHONPATH=$OUTRANK_REPO.  JSON on stdin, one line `@@RESULT <json>` on stdout.
 
 case = {cols, label, heuristic, tro, cap, batches, nrows, data_seed[, prelude: [case...]][, light]
-        [, combine: {order, rel, cap}][, pool: {kind: fake|pathos, ncpus}][, ref: [feature strings of the reference model JSON]]}
+        [, combine: {order, rel, cap}][, pool: {kind: fake|pathos, ncpus}][, ref: [feature strings of the reference model JSON]][, ref_fields: [...]]
+        [, cbr: {focus: None | 'a,b' | '_all_from_reference_JSON', expected_cols: [...]}]  (rows through compute_batch_ranking)}
 result.cols = the columns of the frame actually ranked (differs from case.cols only with `combine`)
 result = {ok, cands: [[a, b]], cap_after_cands, batches: [{rows: [[a, b, score_key]], cap_after, sampled: [[a, b]] | None}], error}
 score_key = "0" for a score equal to 0.0, otherwise the hex of the IEEE-754 bits (equal keys <=> bit-identical scores).
@@ -159,7 +160,7 @@ def run_case(case):
     import os
     path = os.path.join(os.getcwd(), 'c06_ref_%d.json' % os.getpid())
     with open(path, 'w') as f:
-        json.dump({'desc': {'features': list(ref)}}, f)
+        json.dump({'desc': {'features': list(ref), 'fields': list(case.get('ref_fields') or [])}}, f)
     orig = cr.get_importances_estimate_pairwise
     cr.get_importances_estimate_pairwise = _pseudo_scorer
     try:
@@ -187,10 +188,17 @@ def _run_case(case, ref_path):
             ca.combination_number_upper_bound = int(comb.get('cap', 10 ** 6))
             df = cr.compute_combined_features(df, ca, FakeBar(), bool(comb.get('rel')))
         res['cols'] = [str(x) for x in df.columns]
+        cbr = case.get('cbr')
+        cand_columns = df.columns
+        if cbr:
+            # through compute_batch_ranking: the batch's feature space is what --feature_set_focus keeps plus the label
+            # (the harness's expectation, cbr['expected_cols']); the candidate list is taken on that column index
+            res['cols'] = list(cbr['expected_cols'])
+            cand_columns = pd.Index(res['cols'])
         a0 = make_args(case)
         if ref_path:
             a0.reference_model_JSON = ref_path
-        cands = cr.get_combinations_from_columns(df.columns, a0)
+        cands = cr.get_combinations_from_columns(cand_columns, a0)
         res['cands'] = [as_pair(t) for t in cands]
         res['cap_after_cands'] = int(a0.combination_number_upper_bound)
         args = make_args(case)
@@ -200,7 +208,17 @@ def _run_case(case, ref_path):
         pool, cleanup = make_pool(case)
         for _ in range(case['batches']):
             del _sampled[:]
-            summary = cr.mixed_rank_graph(df, args, pool, FakeBar())
+            if cbr:
+                args.feature_set_focus = cbr['focus']
+                out4 = cr.compute_batch_ranking(df.values.tolist(), set(), args, pool, list(case['cols']),
+                                                logging.getLogger('c06-harness'), FakeBar())
+                summary = out4[0]
+                try:
+                    res['frame_cols_observed'] = [str(k) for k in out4[2].keys()]     # coverage is computed per column of the ranked frame
+                except Exception:
+                    res['frame_cols_observed'] = None
+            else:
+                summary = cr.mixed_rank_graph(df, args, pool, FakeBar())
             rows = summary.triplet_scores
             b = {'cap_after': int(args.combination_number_upper_bound), 'nrows': len(rows)}
             if not light:
